@@ -73,3 +73,12 @@ package search
 //@   mode int
 //@   pure
 //@   requires s != nil
+
+// The pool hands out a match (recycled or new); as in the Searcher contract it is treated as a fresh object.
+//@ func DocumentMatchPool.Get
+//@   props C20 C08
+//@   mode int
+//@   trusted pool internals (recycling of DocumentMatch objects, the TooSmall callback) are outside the verified subset
+//@   requires p != nil
+//@   modifies p.avail
+//@   ensures result != nil && fresh(result)
